@@ -111,6 +111,10 @@ func runFlowCase(c *vf.Ctx, fc *flowCase) *flowResult {
 		if fc.Template == 11 && len(s.LenChoices) == 0 {
 			s.LenChoices = []int{2, 3} // skeleton 10: the flag collection must have elements
 		}
+		if fc.Template == pgen.NTemplates+5 || fc.Template == pgen.NTemplates+10 {
+			// file skeletons 4 and 9: collections without files in some forks only
+			s.Rules = append(s.Rules, pgen.Rule{Stage: "MK2", EmptyPct: 40})
+		}
 		if fc.Template > pgen.NTemplates && len(s.LenChoices) == 0 {
 			s.LenChoices = []int{2, 3} // file skeletons: several forks each
 		}
@@ -652,13 +656,40 @@ func crashFired(trace []vrun.TraceRec, spec string) bool {
 	return false
 }
 
-// fileTmplFor: every seventh case is a file-passing skeleton.
+// fileTmplFor: two of every seven cases are file-passing skeletons; the
+// skeleton for a slot is the one used least so far with that slot's i%3 (the
+// VDR mode / option cycle of the checks), so every (skeleton, i%3) pair
+// comes round.
+var (
+	fileTmplOnce  sync.Once
+	fileTmplTable []int
+)
+
 func fileTmplFor(i int) int {
-	if i%7 != 4 {
+	fileTmplOnce.Do(func() {
+		const n = 40000
+		fileTmplTable = make([]int, n)
+		var cnt [pgen.NFileTemplates][3]int
+		var tot [pgen.NFileTemplates]int
+		for i := 0; i < n; i++ {
+			if i%7 != 4 && i%7 != 1 {
+				continue
+			}
+			best := 0
+			for k := 1; k < pgen.NFileTemplates; k++ {
+				if cnt[k][i%3] < cnt[best][i%3] || (cnt[k][i%3] == cnt[best][i%3] && tot[k] < tot[best]) {
+					best = k
+				}
+			}
+			cnt[best][i%3]++
+			tot[best]++
+			fileTmplTable[i] = 1 + pgen.NTemplates + best
+		}
+	})
+	if i < 0 || i >= len(fileTmplTable) {
 		return 0
 	}
-	j := i / 7 // (skeleton, i%3) pairs cycle through all combinations
-	return 1 + pgen.NTemplates + (j+j/pgen.NFileTemplates)%pgen.NFileTemplates
+	return fileTmplTable[i]
 }
 
 // tmplFor: every third case is a skeleton program.
@@ -688,11 +719,20 @@ func init() {
 				big := i%5 == 4
 				outside := i%2 == 1
 				vdr := []string{"disable", "rolling", "strict"}[i%3]
+				tmpl := fileTmplFor(i)
+				if i%10 == 7 {
+					// an explicit out name equal to a sibling's default file name:
+					// rejected before anything runs, or materialised faithfully
+					cfg.POutClash = 60
+					if i%20 == 7 {
+						tmpl = pgen.NTemplates + 9
+					}
+				}
 				if fileTmplFor(i) == pgen.NTemplates+7 {
 					vdr = "disable" // the pass-through skeleton needs VDR off
 				}
 				cases = append(cases, &flowCase{Index: i, Seed: seed, Cfg: cfg, Vdr: vdr,
-					Reattach: i%4 == 1 || i%4 == 2, Template: fileTmplFor(i),
+					Reattach: i%4 == 1 || i%4 == 2, Template: tmpl,
 					Tweak: func(s *pgen.Spec) {
 						s.PMissingFile = 12
 						s.PNull = 8
